@@ -773,6 +773,127 @@ class Emitter:
         return "\n".join(self.lines) + "\n"
 
 
+REFS = os.path.join(os.path.dirname(os.path.dirname(os.path.abspath(__file__))), "contracts", "refs")
+_KEYWORDS = set("as break const continue crate else enum extern false fn for if impl in let loop match mod move mut pub ref return self Self static struct super trait true type unsafe use where while dyn".split())
+
+
+def _sig_pairs(toks):
+    return [(t.kind, t.text) for t in toks if t.kind not in ("ws", "comment")]
+
+
+def align_tokens(ref, cur):
+    """alignment of the reference token stream of a function (recorded when the contract was written) with its current stream:
+    list of (ref_index, cur_index) for tokens in equal-shape regions (identifiers count as one shape)"""
+    shape = lambda p: "\x00ID" if p[0] == "ident" and p[1] not in _KEYWORDS else p[1]
+    sr, sc = [shape(p) for p in ref], [shape(p) for p in cur]
+    if sr == sc:
+        return [(k, k) for k in range(len(ref))]
+    import difflib
+    out = []
+    for tag, i1, i2, j1, j2 in difflib.SequenceMatcher(None, sr, sc, autojunk=False).get_opcodes():
+        if tag == "equal":
+            out.extend((i1 + d, j1 + d) for d in range(i2 - i1))
+    return out
+
+
+def _find_seq(sig, want):
+    return [a for a in range(len(sig) - len(want) + 1) if all(sig[a + b][1] == want[b] for b in range(len(want)))]
+
+
+def apply_renames(u, ref, cur, name, log):
+    """R11: the contract text follows consistent renames of parameters / locals. Every section is tied to a position of the
+    reference stream (signature, n-th loop, n-th Zip, anchor); an identifier of that section is rewritten to what its nearest
+    preceding occurrence in the reference became in the current stream (scope aware: shadowed names are told apart).
+    Anchors are moved through the alignment. Returns the rewritten unit and whether anything changed."""
+    import copy
+    al = align_tokens(ref, cur)
+    if all(ref[a] == cur[b] for a, b in al) and len(al) == len(ref) == len(cur):
+        return u, False
+    r2c = dict(al)
+    # a rename is only recognised when the new name is FRESH (does not occur in the reference at all): statements that were
+    # merely reordered align `a_up` with `a_low` and must not be mistaken for a swap of names
+    ref_idents = {t[1] for t in ref if t[0] == "ident"}
+    occ = {}
+    for a, b in al:
+        if ref[a][0] == "ident" and ref[a][1] not in _KEYWORDS:
+            n = cur[b][1]
+            occ.setdefault(ref[a][1], []).append((a, n if (n == ref[a][1] or n not in ref_idents) else ref[a][1]))
+    if not any(o != n for o, lst in occ.items() for _, n in lst):
+        return u, False
+    loops = [k for k, t in enumerate(ref) if t[0] == "ident" and t[1] in ("for", "while", "loop")]
+    zips = [k for k, t in enumerate(ref) if t == ("ident", "Zip") and k + 2 < len(ref) and ref[k + 1][1] == "::" and ref[k + 2][1] == "from"]
+    body0 = next((k for k, t in enumerate(ref) if t[1] == "{"), 0)
+
+    def relocate(anchor):
+        want = [t.text for t in lex(anchor) if t.kind not in ("ws", "comment")]
+        hits = _find_seq(ref, want)
+        if len(hits) != 1:
+            return anchor, None
+        idx = [r2c.get(hits[0] + d) for d in range(len(want))]
+        if None in idx or any(idx[d + 1] != idx[d] + 1 for d in range(len(idx) - 1)):
+            return anchor, hits[0]
+        # only fresh-name renames may change the anchor text (reordered statements align with different tokens)
+        for d, k in enumerate(idx):
+            if cur[k][1] != want[d] and not (cur[k][0] == "ident" and ref[hits[0] + d][0] == "ident" and cur[k][1] not in ref_idents):
+                return anchor, hits[0]
+        return " ".join(cur[k][1] for k in idx), hits[0]
+
+    changed = {}
+    all_idents = set()
+    for sct in u["sections"]:
+        for ln in sct["lines"]:
+            all_idents.update(re.findall(r"[A-Za-z_][A-Za-z0-9_]*", ln))
+
+    def rename_text(txt, pos):
+        def rep(m):
+            nm = m.group(1)
+            lst = [(a, n) for a, n in occ.get(nm, []) if a <= pos]
+            if not lst:
+                return nm
+            n = lst[-1][1]
+            if n != nm:
+                if n in all_idents and n not in occ:
+                    raise Undecided("R11: a local of %s was renamed to `%s`, which the contract text already uses for something else" % (name, n))
+                changed[nm] = n
+            return n
+        return re.sub(r"(?<![A-Za-z0-9_.])(?<!::)([A-Za-z_][A-Za-z0-9_]*)(?![A-Za-z0-9_])", rep, txt)
+
+    u2 = copy.deepcopy(u)
+    h2 = u2["head"]
+    base = body0
+    if h2.get("block"):
+        newa, pos = relocate(h2["block"])
+        h2["block"] = newa
+        if pos is not None:
+            base = pos
+        if h2.get("params"):
+            h2["params"] = rename_text(h2["params"], base)
+    for sct in u2["sections"]:
+        lab = sct["label"].split()
+        pos = base
+        if lab and lab[0] in ("loop", "zloop") and len(lab) > 1 and lab[1].isdigit():
+            pool = zips if lab[0] == "zloop" else loops
+            if h2.get("block"):
+                pool = [k for k in pool if k >= base]
+            n = int(lab[1])
+            if n < len(pool):
+                pos = pool[n]
+        elif lab and lab[0] in ("proof", "ghost", "opaque-arm") and ":" in sct["label"] and not sct["label"].startswith(("proof at-", "ghost at-")):
+            head, anchor = sct["label"].split(":", 1)
+            newa, p0 = relocate(anchor.strip())
+            sct["label"] = head + ": " + newa
+            if p0 is not None:
+                pos = p0
+        elif sct["label"].startswith("proof at-end"):
+            pos = len(ref)
+        elif lab and lab[0] in ("requires", "ensures"):
+            pos = base if h2.get("block") else body0
+        sct["lines"] = [rename_text(ln, pos) for ln in sct["lines"]]
+    if changed:
+        log.append("R11 %s: contract identifiers follow the renames %s" % (name, ", ".join("%s->%s" % kv for kv in sorted(changed.items()))))
+    return u2, True
+
+
 def emit_unit(em, repo, u, type_table, log, assumed=False):
     h = u["head"]
     name = h["unit"]
@@ -782,6 +903,12 @@ def emit_unit(em, repo, u, type_table, log, assumed=False):
         lo, hi = src.find_impl(h["impl"])
     f = src.find_fn(h["fn"], lo, hi)
     toks = src.toks
+    # R11: contracts follow consistent renames of parameters / locals / closure parameters (reference stream in contracts/refs)
+    refp = os.path.join(REFS, os.path.basename(u["path"]) + ".json")
+    if os.path.exists(refp) and not assumed:
+        import json as _json
+        u, _ch = apply_renames(u, [tuple(x) for x in _json.load(open(refp))], _sig_pairs(toks[f["kfn"]:f["b_close"] + 1]), name, log)
+        h = u["head"]
     block = None
     if h.get("block"):
         # a statement (loop) inside the function, extracted as a pseudo-function over its free variables (declared in `params:`)
